@@ -1,5 +1,6 @@
 import Poulpy.Lemmas.NttSum
 import Poulpy.Lemmas.NttRange
+import Poulpy.Model.Ntt120Hal
 
 /-!
 NTT120 at HAL level.  `Rep P k j lane a`: the `u64` lane (one prime of one DFT-domain limb, as the
@@ -248,11 +249,11 @@ theorem lrep_pack (P : PrimeSet) (k j : Nat) (c : LaneCtx P k j) (lane : List Na
     have e : cz (P.qs.getD k 1) (a % P.qs.getD k 1) = cz (P.qs.getD k 1) a := cz_eq_of_modEq (Nat.mod_modEq _ _)
     rw [e]; simp [cz]
 
-/-- the prepared pair of one lazy residue -/
-def cPairOf (q b : Nat) : Nat × Nat := ((cFromBK q b).getD 0 0, (cFromBK q b).getD 1 0)
+/-- the prepared pair of one lazy residue (`Ntt120.cPairK`) -/
+abbrev cPairOf (q b : Nat) : Nat × Nat := cPairK q b
 
 theorem cPairOf_eq (q b : Nat) (hq0 : 0 < q) (hq : q < 2 ^ 32) : cPairOf q b = (b % q, b % q * 2 ^ 32 % q) := by
-  unfold cPairOf; rw [cFromBK_eq q hq0 hq b]; simp only [List.getD_cons_zero, List.getD_cons_succ]
+  unfold cPairOf cPairK; rw [cFromBK_eq q hq0 hq b]; simp only [List.getD_cons_zero, List.getD_cons_succ]
 
 theorem cPairOf_spec (q b : Nat) (hq0 : 0 < q) (hq : q < 2 ^ 32) :
     (cPairOf q b).1 < q ∧ (cPairOf q b).2 < q ∧ cz q (cPairOf q b).2 = cz q (cPairOf q b).1 * 2 ^ 32 ∧ cz q (cPairOf q b).1 = cz q b := by
@@ -292,6 +293,8 @@ def slotTerms (rows : List (List (Nat × Nat) × List (Nat × Nat))) (s : Nat) :
 slot by slot) -/
 def bbcSlots (q h n : Nat) (rows : List (List (Nat × Nat) × List (Nat × Nat))) : List Nat :=
   (List.range n).map (fun s => bbcK h (pow2Mod 32 q) (pow2Mod (32 + h) q) (slotTerms rows s))
+
+theorem bbcSlotsK_eq (q h n : Nat) (rows : List (List (Nat × Nat) × List (Nat × Nat))) : bbcSlotsK q h n rows = bbcSlots q h n rows := rfl
 
 theorem getD_mem {α} (l : List α) (i : Nat) (d : α) (hi : i < l.length) : l.getD i d ∈ l := by
   rw [List.getD_eq_getElem?_getD, List.getElem?_eq_getElem hi]; simp
